@@ -45,4 +45,8 @@ VARIANTS = [
     V("N-recording-axes-from-the-coordinate-mapping", "src/soundevent/audio/io.py", "        dims=(Dimensions.time.value, Dimensions.channel.value),\n", "", None, occurrence=0),
     # G.12
     V("long-clip-rejected(G.12)", "src/soundevent/audio/io.py", "    recording = clip.recording\n    samplerate = recording.samplerate", "    if clip.duration > 3600:\n        raise ValueError(\"Clips longer than one hour are not loaded.\")\n\n    recording = clip.recording\n    samplerate = recording.samplerate", "G.12"),
+    # wave 14: a private helper that completes a container its callers build for it (G.3 exemption, both spellings of "fresh")
+    V("N-attrs-finished-by-helper-display", "src/soundevent/arrays/dimensions.py", "        **kwargs,\n    }\n\n    if step is not None:\n        attrs[DimAttrs.step.value] = step\n\n    return xr.Variable(\n        dims=name,\n        data=coods,\n        attrs=attrs,\n    )\n\n\ndef create_frequency_dim_from_array(", "        **kwargs,\n    }\n\n    return _with_step(coods, name, step, {**attrs})\n\n\ndef _with_step(coods, name, step, attrs):\n    if step is not None:\n        attrs[DimAttrs.step.value] = step\n    return xr.Variable(dims=name, data=coods, attrs=attrs)\n\n\ndef create_frequency_dim_from_array(", None),
+    V("N-attrs-finished-by-helper-local", "src/soundevent/arrays/dimensions.py", "        **kwargs,\n    }\n\n    if step is not None:\n        attrs[DimAttrs.step.value] = step\n\n    return xr.Variable(\n        dims=name,\n        data=coods,\n        attrs=attrs,\n    )\n\n\ndef create_frequency_dim_from_array(", "        **kwargs,\n    }\n\n    return _with_step(coods, name, step, attrs)\n\n\ndef _with_step(coods, name, step, attrs):\n    if step is not None:\n        attrs[DimAttrs.step.value] = step\n    return xr.Variable(dims=name, data=coods, attrs=attrs)\n\n\ndef create_frequency_dim_from_array(", None),
+    V("helper-changes-callers-argument", "src/soundevent/arrays/dimensions.py", "        **kwargs,\n    }\n\n    if step is not None:\n        attrs[DimAttrs.step.value] = step\n\n    return xr.Variable(\n        dims=name,\n        data=coods,\n        attrs=attrs,\n    )\n\n\ndef create_frequency_dim_from_array(", "        **kwargs,\n    }\n\n    return _with_step(coods, name, step, attrs, kwargs)\n\n\ndef _with_step(coods, name, step, attrs, given):\n    if step is not None:\n        attrs[DimAttrs.step.value] = step\n    if coods.size:\n        coods[0] = 0.0\n    return xr.Variable(dims=name, data=coods, attrs=attrs)\n\n\ndef create_frequency_dim_from_array(", "G.3"),
 ]
